@@ -99,3 +99,138 @@ def c19_spaces(job):
         except Exception as e:  # noqa: BLE001
             out.append({"error": type(e).__name__, "message": str(e)[:500]})
     return out
+
+
+# ----------------------------------------------------------------------------- solver runs
+def _fx(arr):
+    """exact rationals of a float array, as strings"""
+    import numpy as np
+    from fractions import Fraction
+    a = np.asarray(arr, dtype=np.float64).reshape(-1)
+    return [str(Fraction(float(x))) if np.isfinite(x) else str(float(x)) for x in a]
+
+
+def _canon_policy(problem, policy):
+    """policy rows (action vectors) -> index of the FIRST action row with that vector"""
+    import numpy as np
+    if policy is None:
+        return None
+    A = np.asarray(problem.action_space)
+    P = np.asarray(policy)
+    out = []
+    for row in P:
+        m = np.where((A == row).all(axis=1))[0]
+        out.append(int(m[0]) if len(m) else -1)
+    return out
+
+
+SOLVERS = {"vi": "ValueIteration", "pi": "PolicyIteration", "rvi": "RelativeValueIteration",
+           "pvi": "PeriodicValueIteration", "savi": "SemiAsyncValueIteration"}
+
+
+def make_problem(pspec):
+    if pspec.get("kind", "tabular") == "tabular":
+        from tools.impl.tabular import TabularProblem
+        return TabularProblem(pspec)
+    import mdpax.problems as mp
+    from mdpax.problems.perishable_inventory.de_moor_single_product import DeMoorSingleProductPerishable
+    from mdpax.problems.perishable_inventory.hendrix_two_product import HendrixTwoProductPerishable
+    from mdpax.problems.perishable_inventory.mirjalili_platelet import MirjaliliPlateletPerishable
+    from mdpax.problems.forest import Forest
+    cls = {"forest": Forest, "de_moor": DeMoorSingleProductPerishable, "hendrix": HendrixTwoProductPerishable,
+           "mirjalili": MirjaliliPlateletPerishable}[pspec["kind"]]
+    params = dict(pspec.get("params", {}))
+    for k, v in list(params.items()):
+        if isinstance(v, list):
+            params[k] = tuple(v)
+    return cls(**params)
+
+
+def make_solver(name, problem, config):
+    import mdpax.solvers as ms
+    cls = getattr(ms, SOLVERS[name])
+    return cls(problem=problem, **config)
+
+
+def observe(solver, name):
+    import numpy as np
+    o = {"values": _fx(solver.values), "dtype": str(np.asarray(solver.values).dtype), "iteration": int(solver.iteration),
+         "policy": _canon_policy(solver.problem, solver.policy),
+         "n_pad": int(solver.n_pad), "batch_size": int(solver.batch_size), "n_devices": int(solver.n_devices),
+         "n_batches": int(solver.batch_processor.n_batches), "len_values": int(np.asarray(solver.values).shape[0])}
+    if name == "rvi":
+        o["gain"] = _fx([solver.gain])[0]
+    if name == "pvi":
+        o["history"] = None if solver.value_history is None else [_fx(r) for r in np.asarray(solver.value_history)]
+        o["hidx"] = int(solver.history_index)
+        o["period"] = int(solver.period)
+    if name == "savi":
+        perms = getattr(solver, "_verif_permutations", None)
+        o["perms"] = None if perms is None else [None if p is None else [int(x) for x in p] for p in perms]
+    return o
+
+
+@handler("solve_ops")
+def solve_ops(job):
+    """Build problem + solver, apply a list of operations, observe after each."""
+    _quiet()
+    import jax
+    import jax.numpy as jnp
+    import numpy as np
+    from tools.impl.tabular import frac_to_float
+    problem = make_problem(job["problem"])
+    name = job["solver"]
+    cfg = dict(job.get("config", {}))
+    cfg.setdefault("verbose", 0)
+    solver = make_solver(name, problem, cfg)
+    obs = [observe(solver, name)]
+    obs[0]["conv_threshold"] = _fx([float(solver.conv_threshold)])[0]
+    obs[0]["gamma_used"] = _fx([float(solver.gamma)])[0]
+    for op in job.get("ops", []):
+        kind = op[0]
+        if kind == "solve":
+            st = solver.solve(max_iterations=int(op[1]))
+            o = observe(solver, name)
+            o["returned_values_equal_attr"] = bool(np.array_equal(np.asarray(st.values), np.asarray(solver.values)))
+            o["returned_iteration"] = int(st.info.iteration)
+            o["returned_policy"] = _canon_policy(problem, st.policy)
+            obs.append(o)
+        elif kind == "set_values":
+            solver.values = jnp.array(np.array([frac_to_float(x) for x in op[1]], dtype=np.float64))
+            obs.append({"ok": True})
+        elif kind == "set_policy":
+            A = np.asarray(problem.action_space)
+            solver.policy = jnp.array(np.array([A[a] for a in op[1]]))
+            obs.append({"ok": True})
+        elif kind == "extract_policy":
+            # private helper; absent => recorded as skipped (public route still covers greedy(T V))
+            if hasattr(solver, "_extract_policy"):
+                obs.append({"policy": _canon_policy(problem, solver._extract_policy())})
+            else:
+                obs.append({"skipped": True})
+        elif kind == "wait":
+            if getattr(solver, "checkpoint_manager", None) is not None:
+                solver.checkpoint_manager.wait_until_finished()
+            obs.append({"ok": True})
+        else:
+            raise ValueError(f"unknown op {kind}")
+    if getattr(solver, "checkpoint_manager", None) is not None:
+        solver.checkpoint_manager.wait_until_finished()
+    return {"obs": obs}
+
+
+@handler("tabulate")
+def tabulate_job(job):
+    _quiet()
+    import jax
+    jax.config.update("jax_enable_x64", True)
+    from tools.impl.tabular import tabulate
+    problem = make_problem(job["problem"])
+    t = tabulate(problem)
+    import numpy as np
+    z = np.zeros(np.asarray(problem.state_space).shape[1], dtype=np.int32)
+    import jax.numpy as jnp
+    t["zidx"] = int(problem.state_to_index(jnp.array(z)))
+    iv = jax.vmap(problem.initial_value)(problem.state_space)
+    t["init_values"] = _fx(iv)
+    return t
